@@ -50,7 +50,7 @@ Lemma alloc_spec : forall h o i h', alloc h o = (i, h') ->
   i = next h /\ next h' = S (next h) /\ store h' i = Some o /\ extends h h'.
 Proof.
   intros h o i h' H. unfold Forms.alloc in H. injection H as Hi Hh. subst i h'. cbn.
-  rewrite Nat.eqb_refl. repeat split; try lia.
+  rewrite Nat.eqb_refl. repeat split; try (cbn; lia).
   intros i Hi. cbn. destruct (Nat.eqb i (next h)) eqn:E; [apply Nat.eqb_eq in E; lia | reflexivity].
 Qed.
 
@@ -333,7 +333,7 @@ Proof.
     destruct (compile_file_spec h2 s _ a2 s2 deps mode W2 R2) as (h2' & E2 & W2' & X2).
     rewrite E1, E2.
     apply IH; try assumption.
-    + eapply same_program_extends; eauto.
+    + apply (same_program_extends h1 h2 h1' h2' r1 r2 W1 W2 X1 X2 SPr).
     + rewrite !map_app. cbn [map fst]. rewrite Hd. reflexivity.
 Qed.
 
@@ -357,7 +357,7 @@ Proof.
     assert (Hsi : expected_si mode a1 s1 (link_core (to_core (parse s)) deps)
                 = expected_si mode a2 s2 (link_core (to_core (parse s)) deps)).
     { unfold expected_si. rewrite Hm. cbn [negb]. destruct a1, a2, s1, s2; reflexivity. }
-    rewrite Hsi. apply IH; try assumption. eapply same_program_extends; eauto.
+    rewrite Hsi. apply IH; try assumption. apply (same_program_extends h1 h2 h1' h2' r1 r2 W1 W2 X1 X2 SPr).
 Qed.
 
 (* ------------------------------------------------------------------ inputs are never written *)
@@ -394,7 +394,8 @@ Proof.
               wfh h1 /\ extends h h1 /\ next h <= rid /\ rid < next h1 /\
               forall oa pid, store h1 rid = Some (ORes oa pid) -> next h <= pid /\ pid < next h1).
   { intros oa a c s (W1 & E1 & Hr1 & Hr2 & pid & Srid & Hp1 & Hp2 & _).
-    repeat split; try assumption; intros oa' pid' Hs; rewrite Srid in Hs; injection Hs as _ Hpp; subst pid'; lia. }
+    split; [exact W1 |]. split; [exact E1 |]. split; [exact Hr1 |]. split; [exact Hr2 |].
+    intros oa' pid' Hs. rewrite Srid in Hs. injection Hs as _ Hpp. subst pid'. split; lia. }
   destruct inp as [s | i | r | p].
   - destruct (as_parse_result_source h s W) as (rid' & h1' & ia & Heq & F).
     rewrite Heq in H. injection H as H1 H2. subst rid' h1'. eapply G; eauto.
@@ -460,7 +461,8 @@ Proof.
     pose proof (write_only_protos n0 h pid (link_core c (t_deps src core t)) s W Hp1 Hp2) as O.
     split; [exact O |].
     apply (task_ok_preserved n0 h _ (set_state src core t (TLinked rid)) O).
-    unfold task_ok. cbn. split; [exact Hr1 |]. split; [exact Hr2 | exact Hp].
+    unfold task_ok. cbn. split; [exact Hr1 |]. split; [exact Hr2 |].
+    intros oa' pid' Hs. apply (Hp oa' pid'). rewrite <- Er. exact Hs.
   - (* source info *)
     unfold task_ok in Hok. rewrite Est in Hok. destruct Hok as (Hr1 & Hr2 & Hp).
     unfold Forms.si_step in Hstep.
@@ -473,17 +475,16 @@ Proof.
               only_protos_above n0 h hh /\ task_ok n0 hh (set_state src core t (TDone rid))).
     { intros hh O. split; [exact O |].
       apply (task_ok_preserved n0 h _ (set_state src core t (TDone rid)) O).
-      unfold task_ok. cbn. split; [exact Hr1 |]. split; [exact Hr2 | exact Hp]. }
+      unfold task_ok. cbn. split; [exact Hr1 |]. split; [exact Hr2 |].
+      intros oa' pid' Hs. apply (Hp oa' pid'). rewrite <- Er. exact Hs. }
     destruct (match oa with
               | Some ia => match store h ia with Some (Forms.OAst _ _ _ a) => Some a | _ => None end
               | None => None end) as [x |]; destruct s as [s0 |];
       destruct (mode_none (t_mode src core t)); cbn [negb] in Hstep;
       injection Hstep as H1 H2; subst h' t';
       first [ apply Done; apply write_only_protos; assumption | apply Done; apply only_protos_refl; exact W ].
-  - injection Hstep as H1 H2. subst h' t'. split; [apply only_protos_refl; exact W |].
-    unfold task_ok. rewrite Est. exact Hok.
-  - injection Hstep as H1 H2. subst h' t'. split; [apply only_protos_refl; exact W |].
-    unfold task_ok. rewrite Est. exact I.
+  - injection Hstep as H1 H2. subst h' t'. split; [apply only_protos_refl; exact W | exact Hok].
+  - injection Hstep as H1 H2. subst h' t'. split; [apply only_protos_refl; exact W | exact Hok].
 Qed.
 
 Lemma Forall_update_nth : forall (A : Type) (P : A -> Prop) l n x, Forall P l -> P x -> Forall P (update_nth l n x).
